@@ -223,7 +223,7 @@ def decl_tokens(d):
                     out.append(',')
                 if implied:
                     out.append('IMPLIED')
-                out += name.split(' ')
+                out += str(name).split(' ')   # an index given by number ({ 0 }) is an int
             out.append('}')
         out += t_defval(d.get('defval'))
         return out + ['::=', '{'] + t_oid(d['oid']) + ['}']
